@@ -27,8 +27,13 @@ package vm
 //@ macro Y(stack) = big(stack.data[len(stack.data)-2])
 //@ macro Z(stack) = big(stack.data[len(stack.data)-3])
 
+// Returning integers to the pool changes no integer's value and no other stack's cells: the loop
+// only appends to the pool's own backing array (in place, or into a fresh one).
 //@ func intPool.put
 //@   requires p != nil && p.pool != nil
+//@   loop 1 invariant[C07,C08] 0 <= $k && $k <= len(is) && keptheap("big") && keptheap("F:gitlab.com/aquachain/aquachain/core/vm.Stack.data", p.pool)
+//@   loop 1 invariant[C07,C08] ref(p.pool.data) == old(ref(p.pool.data)) || fresh(p.pool.data)
+//@   loop 1 invariant[C07,C08] keptheap("E:*math/big.Int", old(p.pool.data))
 //@   assigns p.pool.data, p.pool.data[..]
 //@   nopanic[C07,C08]
 
